@@ -1354,6 +1354,22 @@ class AggregateBase(UnitsManaged, Saveable, OpenSystem):
         manager = Manager()
         units_backup = manager.get_current_units("energy")
         manager.set_current_units("energy", "int")
+        # the units of the caller are restored also when the build fails
+        try:
+            self._build(mult=mult, sbi_for_higher_ex=sbi_for_higher_ex,
+                        vibgen_approx=vibgen_approx, Nvib=Nvib, 
+                        vibenergy_cutoff=vibenergy_cutoff,
+                        fem_full=fem_full, el_blocks=el_blocks)
+        finally:
+            manager.set_current_units("energy", units_backup)
+
+
+    def _build(self, mult=1, sbi_for_higher_ex=False,
+              vibgen_approx=None, Nvib=None, vibenergy_cutoff=None,
+              fem_full=False, el_blocks=False):
+        """Builds aggregate properties (in internal units, see `build`)
+        
+        """
 
         # maximum multiplicity of excitons handled by this aggregate
         self.mult = mult
@@ -1729,8 +1745,6 @@ class AggregateBase(UnitsManaged, Saveable, OpenSystem):
             pass
 
         self._built = True
-
-        manager.set_current_units("energy", units_backup)
 
 
     def rebuild(self, mult=1, sbi_for_higher_ex=False,
